@@ -251,7 +251,7 @@ def run_case(env, rec, case):
 
 
 def plan(tier, seed):
-    n = 150000 if tier == "quick" else 2_000_000
+    n = 150000 if tier == "quick" else 8_000_000
     nshard = 15 if tier == "quick" else 32
     shards = [{"name": f"gen_{i:02d}", "kind": "gen", "n": n // nshard, "idx": i} for i in range(nshard)]
     shards.append({"name": "passthrough", "kind": "pass", "n": 600 if tier == "quick" else 20000})
